@@ -69,7 +69,7 @@ Qed.
 
 Lemma scan_while_bound p l n : scan_while p l = Some n -> 0 <= n < len l.
 Proof.
-  revert n. induction l as [|c t IH]; intros n H; cbn in H; [discriminate|].
+  revert n. induction l as [|c t IH]; intros n H; cbn [scan_while] in H; [discriminate|].
   rewrite len_cons. destruct (p c).
   - destruct (scan_while p t) as [m|]; [|discriminate]. inversion H; subst. specialize (IH m eq_refl). lia.
   - inversion H; subst. pose proof (len_nonneg t). lia.
@@ -78,7 +78,7 @@ Qed.
 (* if p rejects the terminator the loop never runs off a well-formed buffer *)
 Lemma scan_while_total p d : p 0 = false -> exists n, scan_while p (d ++ [0]) = Some n.
 Proof.
-  intros Hp. induction d as [|c t [n IH]]; cbn.
+  intros Hp. induction d as [|c t [n IH]]; cbn [app scan_while].
   - rewrite Hp. eauto.
   - destruct (p c); [rewrite IH|]; eauto.
 Qed.
